@@ -339,7 +339,7 @@ def _finish(module, tier, seed, blocks, results, capped, t0):
         "oracles": {k: {"checked": v[0], "vacuous": v[1], "failed": v[2]} for k, v in sorted(oracles.items())},
         "counters": dict(extra),
         "known_findings_hit": {k: h["count"] for k, h in known_hit.items()},
-        "violation_groups": [{"oracle": g["oracle"], "cls": g["cls"], "count": g["count"]} for g in unknown[:100]],
+        "violation_groups": [{"oracle": g["oracle"], "cls": g["cls"], "count": g["count"]} for g in unknown[:int(os.environ.get("VERIF_GROUPS_MAX", "100"))]],
         "internal_errors": [e["error"][-600:] for e in errors][:5] + internal[:5],
     }
     ev = {
